@@ -212,14 +212,22 @@ def all_init(E, t):
     return E.forall(list(t.shape), lambda *j: t.init_at(*j))
 
 
+CMIN = z3.Function('C11.colmin', z3.IntSort(), z3.IntSort())
+CMAX = z3.Function('C11.colmax', z3.IntSort(), z3.IntSort())
+SENT = 9999999
+
+
 class PwmToMappingInit(Contract):
-    """C11 (initialisation): the table returned by _pwm_to_mapping never exposes uninitialised
-    memory - every entry of the returned array was written, for every motif length including 1.
-    (Index safety of the convolution and the value of the table are NOT covered by this contract:
-    bounded layer C11.)"""
+    """C11 (memory safety of the table construction): for every PWM (n >= 1 rows, l >= 1 columns, every discretised
+    entry strictly between the sentinels +-9999999) every read and write of _pwm_to_mapping lies inside its array -
+    numba performs no bounds checks, an index outside [0, largest - smallest] silently corrupts the heap - and the
+    table returned never exposes uninitialised memory (every entry was written, for every motif length including 1).
+    Argument: with cmin(i) / cmax(i) the column minima / maxima of the discretised matrix and CS(t) their prefix sums,
+    smallest <= CSmin(t) and CSmax(t) <= largest - l for 1 <= t <= l; after t columns every finite entry of the
+    running pdf has an index in [CSmin(t) - smallest, CSmax(t) - smallest]; one more column moves it by an entry of
+    that column.  (The VALUE of the table is not covered by this contract: bounded layer C11.)"""
     qualname = 'tangermeme.tools.fimo._pwm_to_mapping'
     props = ('C11',)
-    check_index = False
 
     def make_args(self, cfg, A):
         pwm = A.tensor('log_pwm', 2, 'real', lib='np', min_dims=1)
@@ -230,6 +238,24 @@ class PwmToMappingInit(Contract):
     def accepts(self, a, cfg):
         return False
 
+    def random_inputs(self, cfg, rng):
+        """small log-odds matrices (bounds-checked replay, vf/boundscheck.py)"""
+        import numpy
+        n, l = rng.choice([1, 2, 4]), rng.randint(1, 5)
+        kind = rng.choice(['ints', 'mixed', 'onehot', 'float'])
+        if kind == 'ints':
+            m = numpy.array([[rng.randint(-6, 6) for _ in range(l)] for _ in range(n)], dtype='float64')
+        elif kind == 'onehot':
+            m = numpy.array([[rng.choice([-20.0, 0.0, 2.0]) for _ in range(l)] for _ in range(n)])
+        elif kind == 'mixed':
+            m = numpy.array([[rng.choice([-1, 1]) * rng.randint(0, 9) for _ in range(l)] for _ in range(n)], dtype='float64')
+        else:
+            m = numpy.array([[rng.uniform(-4, 2) for _ in range(l)] for _ in range(n)])
+        return [m, rng.choice([1.0, 0.5, 0.1])], {}
+
+    def show_inputs(self, args, kwargs):
+        return '_pwm_to_mapping(log_pwm=%s, bin_size=%s)' % (args[0].tolist(), args[1])
+
     def post(self, a, r, cfg):
         out = [('returns-pair', isinstance(r, tuple) and len(r) == 2 and isinstance(r[1], Tn))]
         if not out[0][1]:
@@ -239,10 +265,125 @@ class PwmToMappingInit(Contract):
         return out
 
     def loops(self):
-        none = lambda E, fr: []
-        lp = lambda E, fr: [('logpdf-initialised', all_init(E, E.logpdf)), ('old_logpdf-initialised', all_init(E, E.old_logpdf))]
-        return {1: LoopSpec(none), 2: LoopSpec(none), 3: LoopSpec(lambda E, fr: [('old_logpdf-initialised', all_init(E, E.old_logpdf))]),
-                4: LoopSpec(lp), 5: LoopSpec(lp), 6: LoopSpec(lp), 7: LoopSpec(lp), 8: LoopSpec(lp), 9: LoopSpec(lp)}
+        from vf.lib import Sum, sum_step_lemmas
+
+        def P(fr):
+            return fr.env['int_log_pwm']
+
+        def cs(f, t):
+            return Sum(0, t, lambda i: f(O.to_z3(i)))
+
+        def defs(E, fr):
+            """definitions of the column minima / maxima (they exist: n >= 1) and the precondition on the entries;
+            hypotheses only"""
+            if E.where != 'assume':
+                return []
+            p = P(fr)
+            n, l = p.shape
+            i, j = z3.Ints('c11_i c11_j')
+            wmin = z3.Function('C11.argmin', z3.IntSort(), z3.IntSort())
+            wmax = z3.Function('C11.argmax', z3.IntSort(), z3.IntSort())
+            el = lambda a, b: O.to_z3(p.elem(a, b))
+            col = z3.And(0 <= i, i < O.to_z3(l))
+            return [('def:colmin', z3.ForAll([i, j], z3.Implies(z3.And(col, 0 <= j, j < O.to_z3(n)), z3.And(CMIN(i) <= el(j, i), el(j, i) <= CMAX(i))))),
+                    ('def:colmin-attained', z3.ForAll([i], z3.Implies(col, z3.And(0 <= wmin(i), wmin(i) < O.to_z3(n), el(wmin(i), i) == CMIN(i),
+                                                                                     0 <= wmax(i), wmax(i) < O.to_z3(n), el(wmax(i), i) == CMAX(i))), patterns=[CMIN(i)])),
+                    ('pre:entries-between-the-sentinels', z3.ForAll([i, j], z3.Implies(z3.And(col, 0 <= j, j < O.to_z3(n)), z3.And(el(j, i) > -SENT, el(j, i) < SENT)))),
+                    ('pre:n>=1,l>=1', And(n >= 1, l >= 1))]
+
+        def stepped(E, goal):
+            if E.where == 'assume':
+                return goal
+            g = O.to_z3(goal)
+            return Implies(And(*sum_step_lemmas(g)), g)
+
+        def init(E, *names):
+            return [('%s-initialised' % nm, all_init(E, getattr(E, nm))) for nm in names if hasattr(E, nm)]
+
+        def bounds(E, fr, upto):
+            """smallest <= CSmin(t), CSmax(t) <= largest for 1 <= t <= upto"""
+            env = fr.env
+            sm, lg = env['smallest'], env['largest']
+            return E.forall([upto], lambda t: stepped(E, And(sm <= cs(CMIN, t + 1), lg >= cs(CMAX, t + 1))))
+
+        def l1(E, fr):
+            env = fr.env
+            return defs(E, fr) + unfold(E, fr, E.it) + [
+                ('first-column', Implies(E.it >= 1, And(env['smallest'] <= CMIN(0), env['largest'] >= CMAX(0)))),
+                ('csums', stepped(E, And(O.eq(env['log_pwm_min_csum'], cs(CMIN, E.it)), O.eq(env['log_pwm_max_csum'], cs(CMAX, E.it))))),
+                ('sentinels-before-the-first-column', Implies(O.eq(E.it, 0), And(O.eq(env['smallest'], SENT), O.eq(env['largest'], -SENT)))),
+                ('smallest/largest-bound-every-prefix', bounds(E, fr, E.it))]
+
+        def l2(E, fr):
+            env = fr.env
+            p, i = P(fr), env['i']
+            lo, hi = env['log_pwm_min'], env['log_pwm_max']
+            return defs(E, fr) + [
+                ('running-min/max-bound-the-entries-seen', E.forall([E.it], lambda j: And(lo <= p.elem(j, i), hi >= p.elem(j, i)))),
+                ('running-min/max-are-sentinel-or-attained', And(Or(O.eq(lo, SENT), O.exists_box([E.it], lambda j: O.eq(lo, p.elem(j, i)))),
+                                                                  Or(O.eq(hi, -SENT), O.exists_box([E.it], lambda j: O.eq(hi, p.elem(j, i))))))]
+
+        def after1(fr):
+            """facts established by the first loop nest (they stay in the path condition; restated where a later
+            loop head needs them as hypotheses)"""
+            return []
+
+        def support(E, fr, t, cols):
+            """every finite entry of t has an index in [CSmin(cols) - smallest, CSmax(cols) - smallest]"""
+            env = fr.env
+            sm = env['smallest']
+            from vf.ops import PINF
+            return E.forall(t.shape, lambda j: stepped(E, Implies(O.ne(t.elem(j), -PINF), And(cs(CMIN, cols) - sm <= j, j <= cs(CMAX, cols) - sm))))
+
+        def width(E, fr):
+            env = fr.env
+            W = env['largest'] - env['smallest'] + 1
+            p = P(fr)
+            out = [('table-width', And(O.eq(env['logpdf'].shape[0], W), O.eq(env['old_logpdf'].shape[0], W)))]
+            # (largest has been advanced by l)
+            out.append(('prefix-bounds', E.forall([p.shape[1]], lambda t: stepped(E, And(env['smallest'] <= cs(CMIN, t + 1), env['largest'] - p.shape[1] >= cs(CMAX, t + 1))))))
+            return out
+
+        def unfold(E, fr, i):
+            """instances of sum_range_succ' for the prefix sums at column i (valid by the definition of the sum;
+            hypotheses only - the index-safety obligations are generated by the engine and carry no lemmas)"""
+            if E.where != 'assume':
+                return []
+            return [('lemma:CS(i+1)=CS(i)+c(i)', And(O.eq(cs(CMIN, i + 1), cs(CMIN, i) + CMIN(O.to_z3(i))), O.eq(cs(CMAX, i + 1), cs(CMAX, i) + CMAX(O.to_z3(i))),
+                                                   Implies(i <= 0, And(O.eq(cs(CMIN, i), 0), O.eq(cs(CMAX, i), 0)))))]
+
+        def l3(E, fr):
+            env = fr.env
+            first = And(env['smallest'] <= CMIN(0), CMAX(0) <= env['largest'] - P(fr).shape[1])
+            return defs(E, fr) + unfold(E, fr, 0) + width(E, fr) + init(E, 'old_logpdf') + [
+                ('first-column-within-the-table', first), ('support-after-one-column', support(E, fr, env['old_logpdf'], 1))]
+
+        def l4(E, fr):
+            i = E.it + 1
+            return defs(E, fr) + width(E, fr) + init(E, 'logpdf', 'old_logpdf') + [('support-after-i-columns', support(E, fr, fr.env['old_logpdf'], i))]
+
+        def l5(E, fr):
+            from vf.ops import PINF
+            lp = fr.env['logpdf']
+            return defs(E, fr) + width(E, fr) + init(E, 'logpdf', 'old_logpdf') + [
+                ('cleared-so-far', E.forall([E.it], lambda j: O.eq(lp.elem(j), -PINF)))]
+
+        def l6(E, fr):
+            i = fr.env['i']
+            return defs(E, fr) + unfold(E, fr, i) + width(E, fr) + init(E, 'logpdf', 'old_logpdf') + [
+                ('old-support', support(E, fr, fr.env['old_logpdf'], i)), ('new-support', support(E, fr, fr.env['logpdf'], i + 1))]
+
+        def l8(E, fr):
+            i = fr.env['i']
+            lp, ol = fr.env['logpdf'], fr.env['old_logpdf']
+            return defs(E, fr) + width(E, fr) + init(E, 'logpdf', 'old_logpdf') + [
+                ('new-support', support(E, fr, lp, i + 1)),
+                ('copied-so-far', E.forall([E.it], lambda j: O.eq(ol.elem(j), lp.elem(j))))]
+
+        def l9(E, fr):
+            return init(E, 'logpdf', 'old_logpdf')
+        return {1: LoopSpec(l1), 2: LoopSpec(l2), 3: LoopSpec(l3), 4: LoopSpec(l4), 5: LoopSpec(l5), 6: LoopSpec(l6), 7: LoopSpec(l6),
+                8: LoopSpec(l8), 9: LoopSpec(l9)}
 
 
 from vf.contract import FragmentContract
